@@ -732,3 +732,54 @@ silent("c10-benign-adaptation-float-cast-by-keyword", "C10", "flowjax/bisection_
        "    lower = jnp.asarray(lower, dtype=float)\n    upper = jnp.asarray(upper, dtype=float)\n")
 fire("c14-arraylike-to-array-ignores-its-keywords", ["C14", "C03", "C05"], "flowjax/utils.py",
      "    return jnp.asarray(arr, **kwargs)", "    return jnp.asarray(arr)", ".cast")
+
+# ------------------------------------------------------------------------------ round 10
+_BIS_OLD = ("        sign = jnp.sign(func(midpoint))\n        lower = jnp.where(sign == 1, lower, midpoint)\n"
+            "        upper = jnp.where(sign == 1, midpoint, upper)\n\n        # In case we hit the root exactly\n"
+            "        lower = jnp.where(sign == 0, midpoint, lower)\n        upper = jnp.where(sign == 0, midpoint, upper)\n")
+
+
+def _bis_new(at_root):
+    return ("        value = func(midpoint)\n"
+            f"        at_root = {at_root}\n"
+            "        lower = jnp.where(at_root | (value < 0), midpoint, lower)\n"
+            "        upper = jnp.where(at_root | (value > 0), midpoint, upper)\n")
+
+
+fire("c10-bracket-collapses-on-a-residual-test", "C10", "flowjax/bisection_search.py", _BIS_OLD, _bis_new("jnp.isclose(value, 0)"),
+     "C10.bracket")
+silent("c10-benign-bracket-update-by-value-comparisons", "C10", "flowjax/bisection_search.py", _BIS_OLD, _bis_new("value == 0"))
+fire("c10-bracket-by-value-comparisons-wrong-side", "C10", "flowjax/bisection_search.py", _BIS_OLD,
+     _bis_new("value == 0").replace("(value < 0), midpoint, lower", "(value > 0), midpoint, lower")
+     .replace("(value > 0), midpoint, upper", "(value < 0), midpoint, upper"), "C10.bracket")
+_CF_OLD = ("    min_idx = jnp.argmin(jnp.array(losses)).item()\n    return len(losses) - min_idx - 1\n")
+fire("c16-count-fruitless-trailing-non-improving-run", "C16", "flowjax/train/train_utils.py", _CF_OLD,
+     "    count = 0\n    for previous, current in zip(reversed(losses[:-1]), reversed(losses[1:])):\n"
+     "        if current < previous:\n            break\n        count += 1\n    return count\n", "C16.step")
+silent("c16-benign-count-fruitless-pure-python", "C16", "flowjax/train/train_utils.py", _CF_OLD,
+       "    best = min(losses)\n    count = 0\n    for loss in reversed(losses):\n        if loss == best:\n            break\n"
+       "        count += 1\n    return count\n")
+silent("c16-benign-count-fruitless-index-of-min", "C16", "flowjax/train/train_utils.py", _CF_OLD,
+       "    return len(losses) - 1 - losses.index(min(losses))\n")
+fire("c16-count-fruitless-since-maximum", "C16", "flowjax/train/train_utils.py", _CF_OLD,
+     "    return len(losses) - 1 - losses.index(max(losses))\n", "C16.step")
+_MADE_OLD = ("    masked_layers = []\n    for i, linear in enumerate(mlp.layers):\n"
+             "        mask = rank_based_mask(ranks[i], ranks[i + 1], eq=i != len(mlp.layers) - 1)\n"
+             "        masked_linear = eqx.tree_at(\n            lambda linear: linear.weight, linear, Where(mask, linear.weight, 0)\n"
+             "        )\n        masked_layers.append(masked_linear)\n")
+
+
+def _made_new(first_eq):
+    return ("    def _mask_weight(linear, mask):\n        return eqx.tree_at(\n"
+            "            lambda linear: linear.weight, linear, Where(mask, linear.weight, 0)\n        )\n\n"
+            "    first, *rest = mlp.layers\n"
+            f"    masked_layers = [_mask_weight(first, rank_based_mask(ranks[0], ranks[1], eq={first_eq}))]\n"
+            "    for i, linear in enumerate(rest, start=1):\n"
+            "        mask = rank_based_mask(ranks[i], ranks[i + 1], eq=i < len(rest))\n"
+            "        masked_layers.append(_mask_weight(linear, mask))\n")
+
+
+fire("c09-made-first-layer-always-non-strict", ["C09", "C03", "C02"], B + "masked_autoregressive.py", _MADE_OLD, _made_new("True"),
+     "strict")
+silent("c09-benign-made-first-layer-peeled-off", ["C09", "C03", "C02"], B + "masked_autoregressive.py", _MADE_OLD,
+       _made_new("len(rest) > 0"))
